@@ -640,6 +640,15 @@ def oracle(ctx, case, impl):
     has_ops = any(c.startswith("op:") for c in case["calls"])
     if not has_ops and all(c == "REFUSED" for c in impl["calls"][1:]) and not same_snapshot(final, after):
         ctx.fail(case, "second-projection-refused", "a refused project() call changed the object", base)
+    neutral_ops = [c for c in case["calls"] if c.startswith("op:")]
+    if has_ops and all(c[3:].split(":")[0] in ("meta_replace", "meta_clear", "meta_shared_sibling", "assoc_sibling") for c in neutral_ops) \
+            and impl["calls"] and impl["calls"][0] == "OK" and all(c == "REFUSED" for c in impl["calls"][1:]) \
+            and not same_snapshot(final, after):
+        # operations on the metadata / on OTHER objects (siblings sharing metadata, synchronised copies that get projected) do
+        # not touch the poses of the object under test: it must end up exactly as a fresh object projected once
+        ctx.fail(case, "in-plane-unchanged", f"history {case['calls']}: the object does not show the projection of its own poses "
+                 f"(it differs from an identically built object projected directly): operations on other objects / the metadata "
+                 f"leaked into it", base)
 
 
 # ----------------------------------------------------------------------------- plumbing
